@@ -64,6 +64,9 @@ class SpartanProtocol(BaseGopherProtocol):
             self.handler.write(self.wfile)
 
     def write_status(self, code: int, meta: str) -> None:
+        # The meta of an error echoes the (percent-decoded) selector: keep
+        # the status line one line.
+        meta = str(meta).replace("\r", " ").replace("\n", " ")
         self.wfile.write(f"{code} {meta}\r\n".encode(errors="backslashreplace"))
 
     def adjust_mimetype(self, mimetype: typing.Optional[str]) -> str:
